@@ -16,6 +16,7 @@
 #include <string>
 #include <type_traits>
 #include <utility>
+#include <vector>
 
 #ifndef VF_IDX
     #define VF_IDX int
@@ -259,6 +260,42 @@ inline std::uint64_t hash_arr(Arr const& a, std::size_t R, std::uint64_t h = 7)
 {
     for (std::size_t r = 0; r < R; ++r) { h = vf::mix(h, (std::uint64_t)a[r] + 1); }
     return h;
+}
+
+// offsets observed over all multi-indices of m (odometer order) against the model: formula, range, injectivity
+__attribute__((noinline)) inline void judge_offsets(char const* op, std::vector<LL> const& got, Model const& m, std::uint64_t h, char const* what = "offset")
+{
+    LL const span = m.span();
+    std::vector<unsigned char> seen((std::size_t)(span > 0 ? span : 0), 0);
+    Arr i{};
+    std::size_t n    = 0;
+    bool bad_formula = false, bad_range = false, bad_unique = false;
+    std::string const w = what;
+    if (!m.empty()) {
+        do {
+            if (n >= got.size()) { break; }
+            LL const g = got[n++];
+            LL const e = m.off(i);
+            if (g != e && !bad_formula) {
+                bad_formula = true;
+                vf::eq_int(what, g, e);
+            }
+            if (g < 0 || g >= span) {
+                if (!bad_range) {
+                    bad_range = true;
+                    vf::diverge((w + ":outside-required-span").c_str(), vf::to_s(g), "in [0," + vf::to_s(span) + ")");
+                }
+            } else {
+                if (seen[(std::size_t)g] && !bad_unique) {
+                    bad_unique = true;
+                    vf::diverge((w + ":collision").c_str(), vf::to_s(g) + " reached twice", "distinct offsets");
+                }
+                seen[(std::size_t)g] = 1;
+            }
+        } while (next(i, m.e, m.R));
+    }
+    if (n != (std::size_t)m.size() || n != got.size()) { vf::diverge("harness:sweep-count", vf::to_su(got.size()), vf::to_s(m.size())); }
+    vf::cover_bulk(op, n, h, n);
 }
 
 // situation label: rank + pattern class + empty/non-empty index space
